@@ -4,6 +4,7 @@ from pathlib import Path
 from common import *
 import kani_unit as K
 import verus_unit as V
+import native_unit as NU
 
 PROPS = None
 
@@ -40,6 +41,7 @@ def check(prop, tier, seed):
     try:
         vunits = [u for u in units if u["tool"] == "verus"]
         kunits = [u for u in units if u["tool"] == "kani"]
+        nunits = [u for u in units if u["tool"] == "native"]
         standins = []
         for u in vunits:
             try:
@@ -56,13 +58,26 @@ def check(prop, tier, seed):
                 results += K.run_kani(kunits, tier, prop, sc)
                 for r in results:
                     if r["tool"] == "kani" and r["status"] == "failed":
-                        replays.append(kani_replay(prop, r, next(u for u in kunits if u["name"] == r["unit"]), sc))
+                        r["_rp"] = kani_replay(prop, r, next(u for u in kunits if u["name"] == r["unit"]), sc)
         for r in results:
             if r["tool"] == "verus" and r["status"] == "failed":
-                replays.append(V.verus_replay(prop, r, next(u for u in vunits if u["name"] == r["unit"])))
+                r["_rp"] = V.verus_replay(prop, r, next(u for u in vunits if u["name"] == r["unit"]))
         for r, rec in standins:
+            r["_rp"] = rec
             results.append(r)
-            replays.append(rec)
+        for u in nunits:
+            for r in NU.run_native_unit(u, tier):
+                results.append(r)
+                if r["status"] == "failed":
+                    d = REPLAY / prop
+                    d.mkdir(parents=True, exist_ok=True)
+                    path = d / f"{u['name']}.json"
+                    rec = {"property": prop, "obligation": r["harness"], "function": r["function"], "unit": u["name"],
+                           "tool": "native", "clause": r["clause"], "failed_checks": r["failed_checks"], "path": str(path),
+                           "repo_head": git_head(REPO), "repo_dirty": git_dirty(REPO), "replay_cmd": f"./vf replay {path}"}
+                    rec.update(r.pop("_found"))
+                    path.write_text(json.dumps(rec, indent=1))
+                    r["_rp"] = rec
     except Undecided as e:
         log(f"UNDECIDED property={prop}: {e}")
         write_evidence(prop, tier, seed, level, results, units, time.time() - t0, undecided=str(e))
@@ -70,7 +85,8 @@ def check(prop, tier, seed):
     # verdict
     known = [k for k in load_known_findings() if k.get("property") == prop and k.get("status") == "open"]
     violations, known_hits = [], []
-    for r, rp in zip([r for r in results if r["status"] == "failed"], replays):
+    for r in [r for r in results if r["status"] == "failed"]:
+        rp = r.get("_rp") or {"path": "(no replay file)", "reproduced": False}
         k = match_known(r, known)
         if k:
             known_hits.append((r, k))
@@ -183,7 +199,7 @@ def write_evidence(prop, tier, seed, level, results, units, wall, violations=0, 
         if u["tool"] == "kani":
             for a in K.scan_assumptions(u):
                 assumptions.append(f"{u['name']} (harness precondition / stub): {a}")
-        else:
+        elif u["tool"] == "verus":
             assumptions += V.unit_assumptions(u)
         for a in u.get("unverified_callers", []):
             assumptions.append(f"{u['name']}: unverified caller: {a}")
@@ -232,6 +248,12 @@ def replay(path):
             K.inject(u, sc.repo)
             ok, exc, cmd = K.native_playback(u, rec["obligation"], rec["playback_test"], sc)
         log(exc)
+        log("REPRODUCED" if ok else "NOT REPRODUCED")
+        return 1 if ok else 0
+    if rec["tool"] == "native":
+        import native_search
+        ok, out = native_search.replay(u, rec)
+        log(out)
         log("REPRODUCED" if ok else "NOT REPRODUCED")
         return 1 if ok else 0
     return V.replay(rec, u)
